@@ -181,6 +181,16 @@ class Run:
             if closed != n_print:
                 bad.append("%s: Print Assumptions not closed (%d of %d): %s" %
                            (prop_file, closed, n_print, out[-1500:]))
+        self.coqchk_summary = None
+        if ok and not bad and self.thorough() and not os.environ.get("VERIF_NO_COQCHK"):
+            ck_ok, ck_txt = coqchk(self, files)
+            m = re.search(r"CONTEXT SUMMARY.*", ck_txt, re.S)
+            self.coqchk_summary = " ".join((m.group(0) if m else ck_txt[-800:]).split())
+            if not ck_ok:
+                bad.append("coqchk failed: " + ck_txt[-1500:])
+            elif "* Axioms: <none>" not in " ".join(ck_txt.split()):
+                # standard-library axioms are allowed but must be named in the evidence
+                self.log("coqchk reports axioms:", self.coqchk_summary)
         self.proof_ok = ok and not bad
         self.discharged = n_obl if self.proof_ok else 0
         self.proof_bad = bad
@@ -310,6 +320,10 @@ class Run:
         cov.setdefault("trusted_base", TRUSTED_BASE_COMMON)
         cov.setdefault("model_files", self.model_files)
         cov.setdefault("known_findings_seen", self.known_seen)
+        if getattr(self, "coqchk_summary", None):
+            cov.setdefault("coqchk", self.coqchk_summary)
+        if getattr(self, "findings_outcome", None) is not None:
+            cov.setdefault("findings_replayed", self.findings_outcome)
         ev = {
             "property_id": self.prop,
             "tier": self.tier,
